@@ -75,6 +75,7 @@ def check_function(I, target, build, spec, F, name, result_name="result", state_
     def thunk():
         args, kwargs = build()
         holder["ins"] = (args, kwargs)
+        I.complete_fixture([args, kwargs])
         if isinstance(target, str):
             f = lookup(I, target)
             return I.call(f, args, kwargs)
@@ -165,6 +166,7 @@ def check_function(I, target, build, spec, F, name, result_name="result", state_
         for kk in kwargs:
             if isinstance(kwargs[kk], (Obj, list)):
                 V.compare(kwargs[kk], skwargs[kk], Fp, "%s%s.%s" % (name, suffix, kk), out)
+        cache_coherence(I, [args, kwargs], Fp, pc, assume, name + suffix, out)
     finals = []
     for pc, (_k, payload) in results:
         if payload[0] == "ok":
@@ -174,6 +176,51 @@ def check_function(I, target, build, spec, F, name, result_name="result", state_
     if merge_defs:
         out = V.merge_def(out, name)
     return out
+
+
+def cache_coherence(I, values, Fp, pc, assume, name, out):
+    """post-state of the private fields the fixtures do not know (Interp.complete_fixture): each is as __init__ leaves
+    it, or equals what the class's lazy filler computes from the POST-state's visible fields"""
+    from .interp import _MISSING
+    seen = set()
+
+    def walk(v):
+        if isinstance(v, Obj):
+            if id(v) in seen:
+                return
+            seen.add(id(v))
+            for f, (v0, filler) in getattr(v, "cf", {}).items():
+                fin = v.fields.get(f, _MISSING)
+                if fin is v0 or (fin is not _MISSING and not isinstance(fin, (Arr, Poly, Obj, tuple, list)) and fin == v0):
+                    continue
+                cname = "%s.cache.%s.%s" % (name, v.cls.name, f)
+                if filler is None or fin is _MISSING:
+                    out.append(Clause(cname, "undecided", "", "private field %s holds a value and the class has no lazy filler to compare it with" % f))
+                    continue
+                saved = I.assumed
+                I.assumed = set(pc) | set(assume)
+                try:
+                    exp = I.lazy_value(v, f, v0, filler)
+                finally:
+                    I.assumed = saved
+                if exp is _MISSING:
+                    out.append(Clause(cname, "undecided", "", "the lazy filler of %s cannot be evaluated in the post-state" % f))
+                    continue
+                n0 = len(out)
+                V.compare(fin, exp, Fp, cname, out)
+                for c in out[n0:]:
+                    if c.status != "discharged":
+                        c.detail = ("cache %s.%s after the call is not what %s() computes from the object's current state "
+                                    "(stale or wrongly filled): %s" % (v.cls.name, f, filler.node.name, c.detail))
+            for x in v.fields.values():
+                walk(x)
+        elif isinstance(v, (list, tuple)):
+            for x in v:
+                walk(x)
+        elif isinstance(v, dict):
+            for x in v.values():
+                walk(x)
+    walk(values)
 
 
 def lookup(I, qualname):
@@ -223,3 +270,61 @@ class CallCtx:
 
     def holds(self, cond):
         return self.I.decide(C(cond))
+
+
+# ---------------------------------------------------------------- construction-time snapshots
+def _self_attr(n):
+    import ast
+    return isinstance(n, ast.Attribute) and isinstance(n.value, ast.Name) and n.value.id == "self"
+
+
+def stale_snapshots(I, m):
+    """States reachable by re-assigning a *plain* public attribute after construction
+    (``est.set_params(p=...)`` / ``est.p = ...``; no property setter runs): a field that
+    ``__init__`` DERIVES from such an attribute keeps the value derived from the old one.
+    Read off the real ``__init__`` on every run.  Returns [(label, {field: value})] -- the
+    derived field evaluated as the constructor would have for each other value the class
+    distinguishes -- for fixtures that (rightly) need not assume the two agree."""
+    import ast
+    from .interp import Env
+    ci = m.cls
+    hit = ci.find("methods", "__init__", I.classes)
+    if hit is None:
+        return []
+    fd, owner = hit
+    params = {a.arg for a in fd.args.args + fd.args.kwonlyargs} - {"self"}
+    assigns = [s for s in ast.walk(fd) if isinstance(s, ast.Assign) and len(s.targets) == 1 and _self_attr(s.targets[0])]
+
+    def plain(name):
+        return not name.startswith("_") and ci.find("setters", name, I.classes) is None and ci.find("getters", name, I.classes) is None
+    plain_names = {s.targets[0].attr for s in assigns if plain(s.targets[0].attr)}
+    out = []
+    for s in assigns:
+        X = s.targets[0].attr
+        if X not in plain_names or isinstance(s.value, (ast.Name, ast.Constant)):
+            continue
+        deps = {n.attr for n in ast.walk(s.value) if _self_attr(n) and n.attr in plain_names and n.attr != X}
+        deps |= {n.id for n in ast.walk(s.value) if isinstance(n, ast.Name) and n.id in params and n.id in plain_names and n.id != X}
+        for p in sorted(deps):
+            alts = []
+            for c in ast.walk(ci.node):
+                if isinstance(c, ast.Compare) and ((_self_attr(c.left) and c.left.attr == p) or (isinstance(c.left, ast.Name) and c.left.id == p)):
+                    for k in c.comparators:
+                        ks = k.elts if isinstance(k, (ast.List, ast.Tuple, ast.Set)) else [k]
+                        alts += [e.value for e in ks if isinstance(e, ast.Constant) and e.value not in alts]
+            for alt in alts:
+                cur = m.fields.get(p)
+                if isinstance(cur, type(alt)) and cur == alt:
+                    continue
+                m2 = Obj(ci, dict(m.fields))
+                m2.fields[p] = alt
+                env = Env(I.modules[owner.module.split(".")[-1]], {"self": m2, p: alt})
+                env.func = None
+                try:
+                    val = I.ev(s.value, env)
+                except Exception:
+                    continue
+                if val is m.fields.get(X) or (isinstance(val, (str, int, float, bool)) and val == m.fields.get(X)):
+                    continue
+                out.append(("%s as derived from %s=%r" % (X, p, alt), {X: val}))
+    return out
